@@ -19,4 +19,5 @@ pub mod widediv;
 pub mod selftest;
 pub mod parse;
 pub mod display;
+pub mod floatglue;
 pub mod float;
